@@ -140,7 +140,7 @@ def run_case(acc, rnd, tier, case):
         pr = Probes(val=make_val(valseed, p_true))
         pr.cond_plan = cond_plan
         pr.names = []
-        it = Interpreter(sc, initial_context=pr.context(v=0, box=Box(), lst=[], _p=0, res={'h': Handle()}, SN=pr.names.append,
+        it = Interpreter(sc, initial_context=pr.context(v=0, box=Box(), lst=[], _p=0, res={'h': Handle()}, mathmod=os, SN=pr.names.append,
                                                         N=lambda name, _l=pr.names: name in _l), ignore_contract=ignore,
                          evaluator_klass=EagerEvaluator if eager else PythonEvaluator, clock=ticking_clock() if ticking else None)
         it.attach(pr.listener())
